@@ -21,7 +21,7 @@ SeqLess(u, v) == IF Len(u) # Len(v) THEN Len(u) < Len(v)
                  ELSE IF Head(u) # Head(v) THEN Head(u) < Head(v) ELSE SeqLess(Tail(u), Tail(v))
 LOCAL SX2 == INSTANCE SequencesExt
 Ordered(S) == SX2!SetToSortSeq(S, SeqLess)
-SubjectSets == [abc3 |-> Ordered(Words(Abc, 3)), abc4 |-> Ordered(Words(Abc, 4)), abc5 |-> Ordered(Words(Abc, 5)),
+SubjectSets == [abc2 |-> Ordered(Words(Abc, 2)), abc3 |-> Ordered(Words(Abc, 3)), abc4 |-> Ordered(Words(Abc, 4)), abc5 |-> Ordered(Words(Abc, 5)),
                 mix2 |-> Ordered(Words(Mix, 2)), mix3 |-> Ordered(Words(Mix, 3)), mix4 |-> Ordered(Words(Mix, 4))]
 SubjectsOf(name) == SubjectSets[name]
 
@@ -82,9 +82,9 @@ Families ==
   ELSE <<Fam("full0", 0, AtomsFull, UAll, "abc5", FALSE), Fam("full1", 1, AtomsFull, UAll, "abc5", FALSE),
          Fam("full2", 2, AtomsFull, UAll, "abc4", FALSE), Fam("red2", 2, AtomsReduced, UAll, "abc5", FALSE),
          Fam("red3", 3, AtomsReduced, URep, "abc4", FALSE),
-         Fam("mix0", 0, AtomsMix, UAll, "mix4", TRUE), Fam("mix1", 1, AtomsMix, UAll, "mix4", TRUE)>>
+         Fam("mix0", 0, AtomsMix, UAll, "mix4", TRUE), Fam("mix1", 1, AtomsMix, UAll, "mix3", TRUE)>>
 BrefSubs == IF Quick THEN "abc4" ELSE "abc5"
-UsedSubjectSets == {Families[k].subs : k \in 1..Len(Families)} \cup {BrefSubs, "abc3", "mix2"}
+UsedSubjectSets == {Families[k].subs : k \in 1..Len(Families)} \cup {BrefSubs}
 
 \* ---------------- Enum ------------------------------------------------------------------------
 VARIABLES ph, cur, rec_i
@@ -128,7 +128,9 @@ AllLazy(a, g) == IF a.t = "rep" THEN [a EXCEPT !.g = g, !.x = <<AllLazy(a.x[1], 
                  ELSE IF a.t \in Binary THEN [a EXCEPT !.x = <<AllLazy(a.x[1], g), AllLazy(a.x[2], g)>>]
                  ELSE a
 SeqSet(q) == {q[k] : k \in 1..Len(q)}
-LawSubjects(f) == IF f = NoFlags THEN SubjectsOf("abc3") ELSE SubjectsOf("mix2")
+\* small families are checked on more subjects than the big ones
+LawSubjects(fam, f) == IF fam \in {"mix0", "mix1"} THEN SubjectsOf("mix2")
+                       ELSE IF fam \in {"full0", "full1", "bref"} THEN SubjectsOf("abc3") ELSE SubjectsOf("abc2")
 SyntaxLaw(a) ==
   LET src == Render(a)  p == Parse(src) IN
   /\ WellNumbered(a)
@@ -149,57 +151,35 @@ MatchLaw(a, f, s) ==
              SeqSet(AttemptAll(AllLazy(a, TRUE), s, f, i, {})) = SeqSet(AttemptAll(AllLazy(a, FALSE), s, f, i, {})))
        /\ AttemptAll(Norm(a), s, f, i, {}) = fw                                             \* (?:x) = x, sequencing associates
        /\ AttemptAll(Rep(Ncg(a), 1, 1, TRUE), s, f, i, {}) = Dedupe(fw)                          \* x{1} = x
-LawsHold == ph # "pat" \/ (SyntaxLaw(cur.ast) /\ \A k \in 1..Len(LawSubjects(cur.fl)) : MatchLaw(cur.ast, cur.fl, LawSubjects(cur.fl)[k]))
+LawsHold == ph # "pat" \/ (SyntaxLaw(cur.ast) /\ \A k \in 1..Len(LawSubjects(cur.fam, cur.fl)) : MatchLaw(cur.ast, cur.fl, LawSubjects(cur.fam, cur.fl)[k]))
 
 \* ---------------- Judge -------------------------------------------------------------------------
 Recs == ndJsonDeserialize(IOEnv.OBS_FILE)     \* [id, ast, fl, subs, o (distinct observations), ch (seq of seq of index into o, one per channel)]
-\* an observation: [k |-> "null"] | [k |-> "m", i |-> index, g |-> texts] | [k |-> "err", cls |-> ..]
+\* an observation: [k |-> "null"] | [k |-> "m", i |-> index, g |-> texts] | [k |-> "err", cls |-> outcome kind, ty |-> exception type / error name, at |-> site]
 ObsOf(s, m) == IF m.ok THEN [k |-> "m", i |-> m.index, g |-> GroupTexts(s, m)] ELSE [k |-> "null"]
-SameObs(x, y) == x.k = y.k /\ (x.k = "m" => x.i = y.i /\ x.g = y.g) /\ (x.k = "err" => x.cls = y.cls)
+SameObs(x, y) == x.k = y.k /\ (x.k = "m" => x.i = y.i /\ x.g = y.g) /\ (x.k = "err" => x.cls = y.cls /\ x.ty = y.ty)
 
 \* named deviations (known findings): exact as-is rules live in RegexSem (cx.devs) ...
-RECURSIVE RepsIn(_)
-RepsIn(a) == (IF a.t = "rep" THEN {<<a.min, a.max, NeedsAdv(a.x[1])>>} ELSE {})
-             \cup (IF a.t \in Binary THEN RepsIn(a.x[1]) \cup RepsIn(a.x[2]) ELSE IF a.t \in Unary THEN RepsIn(a.x[1]) ELSE {})
-Applicable(a) ==
-  (IF \E r \in RepsIn(a) : ~(r[1] = 0 /\ r[2] = 1) /\ ~(r[1] <= 1 /\ r[2] = -1) THEN {"Dev_CountedUnroll"} ELSE {})
-  \cup (IF \E r \in RepsIn(a) : r[1] >= 1 /\ r[2] = -1 /\ r[3] THEN {"Dev_PlusAdvance"} ELSE {})
-  \cup (IF \E r \in RepsIn(a) : r[1] = 0 /\ r[2] = 1 THEN {"Dev_OptionalReset"} ELSE {})
-  \cup (IF "lb" \in Kinds(a) THEN {"Dev_LbForward"} ELSE {})
-\* ... and input-class deviations for the two sub-matchers, which skip the opcodes they do not know
-\* (regex/vm.py _execute_lookahead: only CHAR, DOT, SAVE_START/END, SPLIT, JUMP, MATCH are interpreted)
-RECURSIVE SubOK(_, _, _)
-SubOK(a, f, kind) ==                     \* is the node interpreted faithfully by sub-matcher `kind` ("la" / "lb") ?
-  CASE a.t = "chr" -> TRUE
-    [] a.t = "any" -> ~f.s
-    [] a.t = "sh" -> kind = "lb" /\ a.c \in {100, 119}
-    [] a.t \in {"cat", "alt"} -> SubOK(a.x[1], f, kind) /\ SubOK(a.x[2], f, kind)
-    [] a.t = "ncg" -> SubOK(a.x[1], f, kind)
-    [] a.t = "grp" -> kind = "la" /\ SubOK(a.x[1], f, kind)
-    [] a.t = "rep" -> /\ SubOK(a.x[1], f, kind) /\ ~NeedsAdv(a.x[1]) /\ GroupsIn(a.x[1]) = {}      \* no SET_POS/CHECK_ADVANCE/SAVE_RESET needed
-    [] a.t = "eps" -> TRUE
-    [] OTHER -> FALSE
-RECURSIVE SubBad(_, _, _)
-SubBad(a, f, kind) ==                    \* some lookaround of that kind has a body the sub-matcher mis-executes
-  \/ a.t = kind /\ ~SubOK(a.x[1], f, kind)
-  \/ a.t \in Unary /\ SubBad(a.x[1], f, kind)
-  \/ a.t \in Binary /\ (SubBad(a.x[1], f, kind) \/ SubBad(a.x[2], f, kind))
 FlagsOf(r) == Flags(r.fl.i, r.fl.m, r.fl.s)
 Explain(a, f, s, act) ==
-  LET ds == Applicable(a)
+  IF act.k = "err"
+  THEN (IF act.ty = "RegExpError" /\ Fwd(a, 0).bad THEN "Dev_ForwardRef"
+        ELSE IF act.ty = "RegexStackOverflow" /\ SpinBad(a) THEN "Dev_SubmatcherOverflow" ELSE "")
+  ELSE
+  LET ds == Applicable(a, f)
       hit == {d \in SUBSET ds : d # {} /\ SameObs(act, ObsOf(s, Search(a, s, f, 0, d)))}
   IN IF hit # {} THEN LET d == CHOOSE d \in hit : \A e \in hit : Cardinality(d) <= Cardinality(e)
                       IN CHOOSE x \in d : TRUE
-     ELSE IF SubBad(a, f, "la") /\ act.k # "err" THEN "Dev_LaSubmatcher"
-     ELSE IF SubBad(a, f, "lb") /\ act.k # "err" THEN "Dev_LbSubmatcher"
+     ELSE IF SubBad(a, f, "la") THEN "Dev_LaSubmatcher"
+     ELSE IF SubBad(a, f, "lb") THEN "Dev_LbSubmatcher"
      ELSE ""
+\* per subject: the reference once; every *distinct* observation of the channels is compared (and explained) once
 JudgeRec(r) ==
   LET a == r.ast  f == FlagsOf(r)  subs == IF r.subs = "" THEN r.sl ELSE SubjectsOf(r.subs)
-      bad == {<<c, k>> \in (1..Len(r.ch)) \X (1..Len(subs)) :
-                ~SameObs(r.o[r.ch[c][k]], ObsOf(subs[k], Search(a, subs[k], f, 0, {})))}
-  IN [id |-> r.id, n |-> Len(r.ch) * Len(subs),
-      bad |-> SX2!SetToSeq({[c |-> b[1], k |-> b[2], dev |-> Explain(a, f, subs[b[2]], r.o[r.ch[b[1]][b[2]]]),
-                             exp |-> ObsOf(subs[b[2]], Search(a, subs[b[2]], f, 0, {}))] : b \in bad})]
+      PerSubject(k) == LET ref == ObsOf(subs[k], Search(a, subs[k], f, 0, {}))
+                           ois == {r.ch[c][k] : c \in 1..Len(r.ch)}
+                       IN {[k |-> k, oi |-> oi, dev |-> Explain(a, f, subs[k], r.o[oi]), exp |-> ref] : oi \in {x \in ois : ~SameObs(r.o[x], ref)}}
+  IN [id |-> r.id, n |-> Len(r.ch) * Len(subs), bad |-> SX2!SetToSeq(UNION {PerSubject(k) : k \in 1..Len(subs)})]
 JudgeInit == /\ rec_i \in 1..Len(Recs) /\ ph = "judge" /\ cur = <<>>
              /\ PrintT(ToJson(JudgeRec(Recs[rec_i])))
 JudgeNext == UNCHANGED vars
